@@ -56,7 +56,7 @@ def check_ast(case, stats):
     isolation_invariant(case, doc, real)
 
 
-BIAS = dict(max_tags=3, tag=st.sampled_from(["@a", "@b", "@a", "@", "@long-tag", "@é"]), p_outline=0.6, max_examples=3,
+BIAS = dict(max_tags=3, tag=st.sampled_from(["@a", "@b", "@a", "@", "@long-tag", "@é", "@<a>", "@t-<b>", "@<c>", "@A"]), p_outline=0.6, max_examples=3,
             max_steps=1, p_arg=0.1)
 
 
